@@ -9,11 +9,11 @@ HERE = os.path.dirname(os.path.dirname(os.path.abspath(__file__)))
 # id -> (engine, category, technique, text, note, design_ref)
 CHECKS = {
     "C01": ("E4-trees", "exploration",
-            "bounded-exhaustive enumeration of project trees x lock states x styles through the real binary",
+            "bounded-exhaustive enumeration of project trees x lock states x styles through the real binary, plus exhaustive fault enumeration on the directory walk (every opendir/readdir below source_dir fails)",
             "Every tree with <=2 (thorough <=3) files and <=2 (thorough 3) statements per file over the reference-state alphabet "
             "{none,0,1,2,7,2^32-2,2^32-1} x style x lock state is edited by the real release binary; inserted IDs (token-strip diff) must be "
             "pairwise distinct, disjoint from every recognised existing ID, within 1..=4294967295, above the maximum when no lock is used; "
-            "an exhausted range must fail the run. Exhaustive inside the stated product, nothing sampled.",
+            "an exhausted range must fail the run. Under every single (thorough: pair of) directory-listing fault in trees with sub-directories the same holds with respect to every file the walk can still reach. Exhaustive inside the stated product, nothing sampled.",
             "Existing IDs are taken from Breadlog's own parser (vh harness); trees larger than the bound add no new control path in the allocator "
             "(argument, not proof).", "§3 C01"),
     "C02": ("E2-hist over E1", "model_checking",
@@ -36,7 +36,7 @@ CHECKS = {
             "and for a --check run on every state that an edit run leaves behind when it is killed, failed or interrupted at every one of its operations.",
             "Interposition is complete for the mutating libc surface (strace self-test).", "§3 C04"),
     "C05": ("E4 differential", "exploration",
-            "bounded-exhaustive enumeration of trees; differential check --check report vs edit-run diff",
+            "bounded-exhaustive enumeration of trees; differential check --check report vs edit-run diff; exhaustive fault enumeration on the directory walk in check mode",
             "On two copies of every enumerated tree the multiset of (file,line,column) reported by --check equals the insertion points of the edit run (positions recomputed from byte offsets), "
             "totals agree, exit status non-zero iff total>0, and the edit run's printed count equals the tokens inserted.",
             "Trees outside the enumerated spaces.", "§3 C05"),
@@ -87,11 +87,11 @@ CHECKS = {
             "Exit status, start ID, lock file before/after and style/scope agree with the guide for every combination; invalid set-ups exit non-zero and change nothing.",
             "Reference model of the guide (~40 lines).", "§3 C16"),
     "C17": ("E3-vh + E4", "exploration",
-            "exhaustive enumeration of all token sequences up to length 4 (thorough 5) over a 27-token alphabet, complete 1-/2-edit neighbourhoods of skeleton statements, UTF-8 alignment sweep at power-of-two boundaries, invalid-UTF-8 and size families",
+            "exhaustive enumeration of all token sequences up to length 4 (thorough 5) over a 27-token alphabet, complete 1-/2-edit neighbourhoods of skeleton statements, UTF-8 alignment sweep at power-of-two boundaries, invalid-UTF-8 and size families, recursion probes, and a scaling oracle (12 ordinary shapes at 64 KiB/256 KiB/1 MiB(/4 MiB): CPU time at 4x the size stays below 9x)",
             "No unwind escapes the parser in-process; through the CLI no exit 101/abort/signal and bounded wall time; unreadable files are reported and skipped while the others are processed.",
             "Byte strings beyond the bound are not covered.", "§3 C17"),
     "C18": ("E1-fsx", "model_checking",
-            "stateless model checking of signal delivery: SIGINT/SIGTERM before and after every interposed operation (incl. stdout writes) of check and edit runs, bound 1 (thorough: + one I/O fault)",
+            "stateless model checking of signal delivery: SIGINT/SIGTERM before and after every interposed operation (incl. stdout writes) of check and edit runs, bound 1 (thorough: + one I/O fault); two signals: every ordered pair of placements before operations",
             "For every placement the process must exit by itself, exit 0 only if a fault-free --check of the result passes (and, in check mode, every file was read), leave every source file original or complete, "
             "and leave a lock covering every ID written.",
             "Signals are delivered synchronously at libc-call boundaries from `opendir` of the source directory on.", "§3 C18"),
@@ -129,7 +129,7 @@ def main():
             "add_only": True,
         },
         "engines": [
-            {"name": "E1-fsx", "path": "engines/fsx/fsx_shim.c + lib/fsx.py", "serves_properties": ["C02", "C04", "C07", "C08", "C18"],
+            {"name": "E1-fsx", "path": "engines/fsx/fsx_shim.c + lib/fsx.py", "serves_properties": ["C01", "C02", "C04", "C05", "C07", "C08", "C18"],
              "kind_free_text": "LD_PRELOAD libc interposer + deviation-bounded exhaustive explorer of the real release binary"},
             {"name": "E2-hist", "path": "lib/props/c02.py", "serves_properties": ["C02"],
              "kind_free_text": "explicit-state BFS over (tree, lock, retired IDs); transitions execute the real binary"},
